@@ -519,6 +519,10 @@ def oracle_c03(r):
         if keys and not (isinstance(tbs.get(e), str) and "Traceback" in tbs[e]):
             if not (outcome in ("skip",) and False):
                 out.append(("exception-without-traceback", {"component": i, "kind": nd["kind"], "outcome": outcome, "element": k}))
+        elif keys and G.raiser_name(i, k) not in tbs[e]:
+            # recorded "with a traceback" means with the traceback of THIS failure
+            out.append(("traceback-belongs-to-another-failure", {"component": i, "kind": nd["kind"], "outcome": outcome, "element": k,
+                                                                 "traceback_tail": tbs[e][-300:]}))
     # injected exceptions recorded although the model says the body never ran / never raised
     expected_ids = set()
     for (i, k, outcome) in raised:
